@@ -8,8 +8,10 @@ to /repo's working tree, the quick checks of the properties that exercise the
 package are run, and the tree is restored. Results go to
 /verif/seeded/lock-deletion/results.json (one record per mutant)."""
 import re,sys,os,subprocess,json,glob,time
-PKGS={"engine/pool":["C09","C11"],"engine/pubsub":["C02","C10"],"engine":["C02","C10","C01"],"scope":["C11","C12","C15"],
-      "interpreter":["C12","C11","C15","C16","C13"],"util":["C11","C15"],"parser":["C13"],"stdlib":["C11"]}
+PKGS={"engine/pool":["C09"],"engine/pubsub":["C02"],"engine":["C10","C02"],"scope":["C11","C15"],
+      "interpreter":["C12","C15","C16"],"util":["C11"],"parser":["C13"],"stdlib":["C11"]}
+FILEPROPS={"interpreter/debug.go":["C15","C16"],"interpreter/rt_general.go":["C13","C11"],"interpreter/rt_statements.go":["C12"],
+           "engine/pool/threadpool.go":["C09","C12"],"engine/monitor.go":["C02","C10"],"engine/taskqueue.go":["C10","C02"]}
 LOCK=re.compile(r'^\s*(defer\s+)?([A-Za-z_][\w\.\(\)\*]*)\.(Lock|Unlock|RLock|RUnlock)\(\)\s*$')
 def mutants():
     out=[]
@@ -58,7 +60,7 @@ def main():
             if b.returncode!=0:
                 rec['detected_by']='does-not-compile'
             else:
-                for prop in PKGS[m['pkg']]:
+                for prop in FILEPROPS.get(m['file'],PKGS[m['pkg']]):
                     t=time.time()
                     r=subprocess.run(['/verif/bin/check',prop,'--tier','quick'],capture_output=True,text=True,cwd='/verif')
                     key=[l.strip() for l in r.stdout.split('\n') if l.startswith('  key:')][:1]
